@@ -19,7 +19,12 @@ type Scenario struct {
 	Setup func() *Harness
 	Bound int  // preemption bound (-1 = unbounded)
 	NoCD  bool // disable the conflict-directed point selection
-	MaxEx int  // cap on executions (0 = none); hitting it clears Exhaustive
+	// FreeBound bounds the deviations from the default choice at points where the running thread is NOT
+	// enabled (it blocked or finished), which cost no preemption. 0 = unbounded. Needed where the code
+	// under test retries until success: always preferring the retrying thread over the thread it waits
+	// for is an unfair schedule of unbounded length.
+	FreeBound int
+	MaxEx     int // cap on executions (0 = none); hitting it clears Exhaustive
 	Params any // written into replay files so that the scenario can be rebuilt
 }
 
@@ -54,7 +59,7 @@ func RunSchedule(sc *Scenario, prefix []int) (*ExecInfo, *Violation, string, str
 	vrand.Reset()
 	vsched.ResetChannels()
 	vsched.DropPendingSpawns()
-	h := sc.Setup()
+	h := sc.Setup() // goroutines the library starts during set-up are adopted by the execution below
 	e := vsched.NewExec(prefix)
 	var ths []*vsched.Thread
 	for i, fn := range h.Threads {
@@ -117,7 +122,11 @@ func exploreSched(c *Ctx, sc *Scenario, split bool) {
 	res := c.Res
 	res.Bound[sc.Name+".preemption_bound"] = sc.Bound
 	res.Bound[sc.Name+".conflict_directed"] = !sc.NoCD
+	if sc.FreeBound > 0 {
+		res.Bound[sc.Name+".non_preemptive_deviation_bound"] = sc.FreeBound
+	}
 	execs := int64(0)
+	maxLen := int64(0)
 	outcomes := map[string]bool{}
 	capped := false
 
@@ -139,7 +148,7 @@ func exploreSched(c *Ctx, sc *Scenario, split bool) {
 				}
 			}
 		}
-		pre := 0
+		pre, free := 0, 0
 		for i, p := range x.Trace {
 			if i >= from && len(p.Enabled) > 1 {
 				cost := pre
@@ -147,6 +156,9 @@ func exploreSched(c *Ctx, sc *Scenario, split bool) {
 					cost++
 				}
 				ok := sc.Bound < 0 || cost <= sc.Bound
+				if !p.RunEn && sc.FreeBound > 0 && free+1 > sc.FreeBound {
+					ok = false
+				}
 				if ok && p.RunEn && !sc.NoCD && p.Obj != 0 && !shared[p.Obj] {
 					ok = false // private object: preempting here is equivalent to preempting at the thread's next shared point
 				}
@@ -163,6 +175,9 @@ func exploreSched(c *Ctx, sc *Scenario, split bool) {
 			if p.RunEn && p.Chosen != 0 {
 				pre++
 			}
+			if !p.RunEn && p.Chosen != 0 {
+				free++
+			}
 		}
 		return out
 	}
@@ -178,6 +193,11 @@ func exploreSched(c *Ctx, sc *Scenario, split bool) {
 			res.States++
 			res.Traces++
 			res.Transitions += int64(len(x.Trace))
+			if int64(len(x.Trace)) > maxLen {
+				maxLen = int64(len(x.Trace))
+				res.Extra[sc.Name+".longest_execution_points"] = float64(maxLen)
+				res.Extra[sc.Name+".longest_execution_schedule"] = compress(x.Choices)
+			}
 			if outcome != "" {
 				res.Outcome(sc.Name + ":" + outcome)
 				if !outcomes[outcome] {
